@@ -148,8 +148,12 @@ func harnessC14Step(kind int) {
 	case 6: // the topic is deleted
 		needReply = false
 		terminated = true
-		t.markDeleted()
-		t.handleTopicTermination(&shutDown{reason: StopDeleted})
+		// deleted, unloaded by the hub (idle timer, or its user's account soft-deleted), or moved at a rehash
+		reason := []int{StopDeleted, StopNone, StopRehashing}[verifChoose("stopReason", 3)]
+		if reason == StopDeleted {
+			t.markDeleted()
+		}
+		t.handleTopicTermination(&shutDown{reason: reason})
 	}
 	w.settle()
 	w.assertSymmetry(terminated)
